@@ -27,7 +27,7 @@ type M = map[string]interface{}
 
 // expOut: one expected / forbidden output.
 type expOut struct {
-	Pat      string `json:"pat"`   // A | B
+	Pat      string `json:"pat"` // A | B
 	Inverted bool   `json:"inverted,omitempty"`
 	Guard    string `json:"guard,omitempty"` // "" | accept | reject
 }
